@@ -168,6 +168,13 @@ def units(tier):
                     [(pen, fi) for pen in ('L1', 'WeightedL1', 'L1_plus_L2', 'MCPenalty') for fi in (False, True)]):
         runs.append(dict(solver='AndersonCD', datafit='Quadratic', penalty=pen, X='corr32', max_iter=1, max_epochs=1,
                          max_epochs_unpatched=7, acc_stub=1, p0=1, fit_intercept=fi, ws_strategy='subdiff', warm=True))
+    # ... and with unpenalised features: 2 zero weights + a warm start supported on the 2 penalised features, p0 = 1:
+    # |unpenalised U support| = 4 > working-set size 3 (F12)
+    for sp in (False, True):
+        runs.append(dict(solver='AndersonCD', datafit='Quadratic', penalty='WeightedL1', X='gen34', max_iter=1, max_epochs=1,
+                         max_epochs_unpatched=7, acc_stub=1, p0=1, fit_intercept=False, ws_strategy='subdiff', warm=True,
+                         weights_concrete=[1.0, 2.0, 0.0, 0.0], w0_concrete=[2.0, -1.0, 0.0, 0.0], acc_catalogue=[1.0, 0.0],
+                         keep_design=True, ylabels=[1.0, -2.0, 3.0], sparse=sp))
     if not q:
         runs.append(dict(solver='ProxNewton', datafit='Quadratic', penalty='L1', X='corr32', max_iter=1, max_pn_iter=1, p0=2,
                          fit_intercept=False, ws_strategy='subdiff', warm=True))
